@@ -247,6 +247,12 @@ def evalFn (name : String) (cp : Nat) : Option String :=
   | "ctxrule" => some (match getContextRule cp with | some r => r.name | none => "none")
   | "bidi" => some (reprStr (bidiClass cp) |>.replace "Precis.BidiClass." "")
   | "widthmap" => some (match getDecompositionMapping cp with | none => "none" | some d => hex4 d)
+  | "hasrtl1" => if sc then some (bS (hasRtl [cp])) else none
+  | "dir_a1" => if sc then some (match directionalityRule [0x61, cp] with | .ok t => (if t == [0x61, cp] then "ok" else "changed") | _ => "err") else none
+  | "dir_1" => if sc then some (match directionalityRule [cp] with | .ok t => (if t == [cp] then "ok" else "changed") | _ => "err") else none
+  | "spec_hasrtl1" => if sc then some (bS (Spec.isRtlTrigger (Spec.bidi16 cp))) else none
+  | "spec_dir_a1" => if sc then some (match Spec.specDirectionality Spec.bidi16 [0x61, cp] with | .ok _ => "ok" | _ => "err") else none
+  | "spec_dir_1" => if sc then some (match Spec.specDirectionality Spec.bidi16 [cp] with | .ok _ => "ok" | _ => "err") else none
   | "zs" => if sc then some (bS (isSpaceSeparator cp)) else none
   | "nonascii_zs" => if sc then some (bS (isNonAsciiSpace cp)) else none
   | "std_upper" => if sc then some (bS (isUppercase cp)) else none
